@@ -58,6 +58,12 @@ pub struct Outcome {
     pub sim_ms: u64,
     /// sub-executions inside the scenario (crash points, API calls, analyses ...)
     pub sub_evals: u64,
+    /// a scenario that stands for a batch of generated cases reports them here
+    pub extra_evals: u64,
+    /// signatures of the distinct non-trivial cases of a batch
+    pub sigs: Vec<u64>,
+    /// explicit (already minimised) scenario to use for replay instead of the generated one
+    pub explicit: Option<Value>,
 }
 impl Outcome {
     pub fn skip(reason: &str) -> Outcome {
@@ -232,6 +238,14 @@ pub fn run_check(prop: &dyn Property, tier: Tier) -> i32 {
                 }
                 // keep scenarios only where needed (violations, first few samples)
                 let keep = !out.violations.is_empty() || i < 64;
+                let mut out = out;
+                let sc = match out.explicit.take() {
+                    Some(x) if !out.violations.is_empty() => x,
+                    _ => sc,
+                };
+                if !keep {
+                    out.trace.clear();
+                }
                 results.lock().unwrap().push((i, if keep { sc } else { Value::Null }, out));
             });
         }
@@ -278,7 +292,10 @@ pub fn run_check(prop: &dyn Property, tier: Tier) -> i32 {
             *skipped.entry(r.clone()).or_insert(0) += 1;
             continue;
         }
-        evaluations += 1;
+        evaluations += 1 + out.extra_evals;
+        for s in &out.sigs {
+            distinct.insert(*s);
+        }
         steps += out.steps;
         sim_ms += out.sim_ms;
         sub_evals += out.sub_evals;
